@@ -285,6 +285,13 @@ SKIP_ROUNDTRIP = {
 }
 
 
+def _mask_text(m):
+  flat = getattr(m, "flat", None)
+  if flat is None:
+    return repr(m)
+  return "%s with entries %s" % (tuple(m.shape), [str(e) for e in flat()])
+
+
 def layer_pe(repo, ci, name):
   """An interpreter in which a layer class of the library can be built by
   its OWN constructor: the Keras parent constructor / get_config and the
@@ -422,12 +429,19 @@ def rule_layer_roundtrip(rep, repo, table):
     # (both sides > 1, a unit-length side, 1x1)
     if "mask" in params:
       from ..pe import NDArr, nd_equal
-      for mshape in ((3, 3), (2, 3), (1, 3), (3, 1), (1, 1)):
+      for mshape, soft in (((3, 3), False), ((2, 3), False), ((1, 3), False),
+                           ((3, 1), False), ((1, 1), False), ((3, 3), True),
+                           ((1, 3), True)):
         vals = [(i * 7 + 3) % 2 for i in range(mshape[0] * mshape[1])]
+        if soft:
+          # a weighting mask: entries that are not 0 / 1
+          vals = [(F(1, 2), F(1), F(-1, 4), F(0), F(3, 2))[i % 5]
+                  for i in range(mshape[0] * mshape[1])]
         mk = NDArr.from_flat(vals, mshape) if mshape != (1, 1) else NDArr(
             [[1]])
         kwm = dict(kw, kernel_size=mshape, mask=mk)
-        mcfg = "%s(mask of shape %s)" % (name, mshape)
+        mcfg = "%s(%smask of shape %s)" % (name, "fractional " if soft
+                                           else "", mshape)
         try:
           om = pe.call(cref, [], dict(kwm))
           cfgm = pe.call(pe.getattr(om, "get_config"), [], {})
@@ -454,8 +468,9 @@ def rule_layer_roundtrip(rep, repo, table):
         rep.check(isinstance(m1, (NDArr, list)) and isinstance(
             m2, (NDArr, list)) and nd_equal(m1, m2), "R5", unit,
                   "mask-changed-by-config-round-trip",
-                  "%s: the mask of the rebuilt layer is %r, the original "
-                  "%r" % (mcfg, m2, m1), loc=loc, instance=mcfg)
+                  "%s: the mask of the rebuilt layer is %s, the original "
+                  "%s" % (mcfg, _mask_text(m2), _mask_text(m1)), loc=loc,
+                  instance=mcfg)
     try:
       o = pe.call(cref, [], dict(kw))
       cfg = pe.call(pe.getattr(o, "get_config"), [], {})
